@@ -1,12 +1,12 @@
 ID = "C01"
 COQ_PROPS = "Properties/C01.v"
 JUDGE = "Judge.C01"
-DRIVER = "tdc"
+DRIVER = "c01"
 SHARD = 60
 
 
 def driver_args(tier, seed, phase):
-    a = ["-prop", "C01"]
+    a = []
     if phase == "search":
         a += ["-n", "1500" if tier == "quick" else "20000"]
     return a
@@ -23,13 +23,14 @@ TRUSTED_BASE = [
     "qid_tries regenerated from the source into Gen/Constants.v",
     "harness/tdcx (fake NetConn, script executor, generator), verif hooks in /repo (pkg/verifhook, zz_verif_export.go)",
 ]
-RULE = ("catalogue of hand-written schedules (permuted/duplicated/stray replies, colliding caller ids 0/0xFFFF, wire-id wrap at 65535, "
+RULE = ("(ID-multiplexed connection) catalogue of hand-written schedules (permuted/duplicated/stray replies, colliding caller ids 0/0xFFFF, wire-id wrap at 65535, "
         "forced skipping of taken ids, late replies to cancelled/finished calls) for TCP and UDP framing + seeded random schedules of "
         "reserve/start/write-end/hold/release/feed/stray/EOF/close/cancel over 2-13 calls that respect the property's environment clause; "
-        "non-trivial = at least 2 calls started and at least 2 frames fed; distinct = distinct Gallina literal (script + observation)")
+        "non-trivial = at least 2 calls started and at least 2 frames fed; distinct = distinct Gallina literal (script + observation). (non-pipelined transport) catalogue + seeded random schedules on the real ReuseConnTransport over fake connections: scripted dials, gated writes, replies/surplus frames/EOF per connection, cancels, holds before the wait, retries onto pooled or fresh connections, transport Close")
 LEVEL_TEXT = ("Theorems for ALL label lists (all schedules of callers, reader, server, faults, cancellation) of the connection LTS: "
               "a successful call returns a reply produced for that very call with the caller's id restored (under the property's scope clause), "
               "wire ids of simultaneously registered calls differ, the allocation loop hands out a free id and only wraps after 2^16, "
               "strays and duplicates change no call. The LTS is replayed against the real TraditionalDnsConn on every run.")
-LEVEL_NOTE = ("Covers the ID-multiplexed connection (UDP, pipelined TCP/DoT). The non-pipelined reuse connection, DoH and DoQ id handling "
-              "are not yet modelled (see DESIGN.md); DoH/DoQ request/stream pairing is net/http / quic-go (trusted). No axioms.")
+LEVEL_NOTE = ("Covers the ID-multiplexed connection (UDP, pipelined TCP/DoT; Model.Tdc) and the non-pipelined transport (Model.Reuse, under the one-reply-per-query "
+              "assumption the property states for it). DoH and DoQ put id 0 on the wire and restore the caller's id; their request/stream pairing is net/http / quic-go "
+              "(trusted, not modelled). No axioms.")
